@@ -113,7 +113,16 @@ ViewsFasta(a) ==
         <<"id_desc_str", (v.id_desc_str.ok <=> ValidUtf8(a.head))
                          /\ (v.id_desc_str.ok => v.id_desc_str.id = IdOf(a.head) /\ v.id_desc_str.desc = DescOf(a.head))>>
       >>
+      \* the line iterator entered through nth / nth_back (C20: the standard iterator contracts): the k-th line from either
+      \* end, and an nth beyond the end reports the end for good
+      n == Len(L)
+      conj20 == IF "lines_nth" \notin DOMAIN v THEN <<>> ELSE <<
+        <<"nth_item", Len(v.lines_nth) = n /\ \A k \in 1..n : v.lines_nth[k].some /\ v.lines_nth[k].item = L[k]>>,
+        <<"nth_back_item", Len(v.lines_nth_back) = n /\ \A k \in 1..n : v.lines_nth_back[k].some /\ v.lines_nth_back[k].item = L[n + 1 - k]>>,
+        <<"nth_past_the_end_is_final", v.nth_past.none /\ v.nth_past.len = 0 /\ v.nth_past.next_none>>
+      >>
   IN {<<"C13", conj[i][1]>> : i \in {i \in 1..Len(conj) : ~conj[i][2]}}
+     \cup {<<"C20", conj20[i][1]>> : i \in {i \in 1..Len(conj20) : ~conj20[i][2]}}
 ViewsFastq(a) ==
   LET v == a.v
       conj == <<
@@ -169,7 +178,18 @@ WriteViol(fmt, el, a) ==
        IN {<<conj[i][1], conj[i][2]>> : i \in {i \in 1..Len(conj) : ~conj[i][3]}}
 
 \* C12: a well-formed file (fields free of CR/LF) never yields a carriage return or an error
-CrViol(e, r) == IF e.pp = "C12" /\ r.k = "rec" /\ ~(NoByte(r.head, {CR}) /\ NoByte(r.qual, {CR}) /\ \A i \in 1..Len(r.lines) : NoByte(r.lines[i], {CR}))
+\* (the input of a C12 group is a rendering of a well-formed structure whose fields contain no CR: a CR in anything the
+\* record hands out - also through its owned copy, its full / owned sequence, or the line iterator entered by nth or from
+\* the back - can only be a line terminator)
+CrViewViol(r) ==
+  IF "v" \notin DOMAIN r THEN FALSE
+  ELSE LET v == r.v
+           flds == <<v.ohead, v.oseq, v.ohead2, v.oseq2, v.id, v.oid>>
+                   \o (IF "full" \in DOMAIN v THEN <<v.full, v.owned_seq>> \o v.lines_rev ELSE <<>>)
+                   \o (IF "oqual" \in DOMAIN v THEN <<v.oqual, v.oqual2>> ELSE <<>>)
+                   \o (IF "lines_nth" \in DOMAIN v THEN [k \in 1..Len(v.lines_nth) |-> v.lines_nth[k].item] \o [k \in 1..Len(v.lines_nth_back) |-> v.lines_nth_back[k].item] ELSE <<>>)
+       IN \E i \in 1..Len(flds) : ~NoByte(flds[i], {CR})
+CrViol(e, r) == IF e.pp = "C12" /\ r.k = "rec" /\ (~(NoByte(r.head, {CR}) /\ NoByte(r.qual, {CR}) /\ \A i \in 1..Len(r.lines) : NoByte(r.lines[i], {CR})) \/ CrViewViol(r))
                 THEN {<<"C12", "carriage_return_in_returned_field">>} ELSE {}
 ErrViol12(e, r) == IF e.pp = "C12" /\ r.k \in FormatErr THEN {<<"C12", "error_on_well_formed_file">>} ELSE {}
 
